@@ -73,6 +73,9 @@ def generate(rng, tier):
     def add(**kw):
         cases.append(kw)
 
+    # tokens whose length does not fit an i32 / a u32: rejected like every other over-long request (C13_reject)
+    for tn in (2**31 - 24, 2**31 - 20, 2**31, 2**31 + 500, 2**32 - 20, 2**32, 2**32 + 4, 2**32 + 492, 2**33 + 7):
+        add(kind='hugeterm', c0=rng.choice(_c0s(rng)), tn=tn)
     for c0 in _c0s(rng):
         add(kind='keepalive', c0=c0)
         add(kind='close', c0=c0)
@@ -225,6 +228,8 @@ def _words(c):
         return 'counter %d %d %d %d %d' % (c['type'], c['kk'], c['kn'], c['lk'], c['ln'])
     if k in ('keepalive', 'close'):
         return k
+    if k == 'hugeterm':
+        return 'hugeterm %d' % c['tn']
     if k == 'terminate':
         return 'terminate %d %d' % (c['tk'], c['tn'])
     if k == 'drain':
@@ -267,6 +272,8 @@ def _ops_term(c):
 def model_expr(c, mode):
     if c['kind'] == 'seq':
         return 'proxy_seq %s %s %s' % (z(c['c0']), z(c['cap']), _ops_term(c))
+    if c['kind'] == 'hugeterm':      # spec_length = 20 + tn > 512: C13_reject gives the observation without spelling the token out
+        return '(@Err Z TooLong, @nil (Z * list Z), @nil (Z * list Z), 0, %s + 1)' % z(c['c0'])
     return "let '(res, recs, tail, next) := proxy_call %s (%s) in (res, recs, recs, tail, next)" % (z(c['c0']), request_term(c))
 
 
@@ -278,6 +285,8 @@ def oracle_expr(c, mode, obs):
     if isinstance(obs, int) or obs[0] != 'tuple' or len(obs[1]) != 5:
         return 'false'
     res, raw, rd, tail, _next = obs[1]
+    if c['kind'] == 'hugeterm':
+        return 'holds_reject %s %s %s %s %s %s' % (z(c['c0']), to_coq(res), to_coq(raw), to_coq(rd), to_coq(tail), to_coq(_next))
     return 'holds_cmd %s (%s) %s %s %s %s' % (z(c['c0']), request_term(c), to_coq(res), to_coq(raw), to_coq(rd), to_coq(tail))
 
 
@@ -291,7 +300,7 @@ def spec_length(c):
         return 28 + c['cn']
     if k == 'counter':
         return 24 + (c['kn'] + 3) // 4 * 4 + 4 + c['ln']
-    if k == 'terminate':
+    if k in ('terminate', 'hugeterm'):
         return 20 + c['tn']
     return 24 if k == 'remove' else 16
 
